@@ -23,10 +23,17 @@ res = {"seeded_property": prop, "summary": meta.get("summary"), "needs": meta.ge
 sh("git checkout -- . && git clean -fdq", wt)
 demo = [f for f in os.listdir(src) if f.startswith("demo")][0]
 head = open(f"{src}/{demo}").read(800)
-m = re.search(r"[Pp]lace[^\n]*?:?\s+`?([\w/]+/[\w.]+_test\.go)`?", head) or re.search(r"([\w]+/[\w.]*_test\.go)", meta.get("demo_cmd", ""))
+cmdtxt = meta.get("demo_cmd", "") + "\n" + head
+m = re.search(r"cp\s+\S+\s+(\S+_test\.go)", cmdtxt) or re.search(r"((?:/tmp/seed-\w+/)?(?:[a-z]+/)+\w+_test\.go)", cmdtxt)
 dest = m.group(1) if m else None
-if dest and dest.startswith("/"):
-    dest = dest.split(wt + "/")[-1]
+if dest:
+    dest = dest.replace(wt + "/", "")
+    if dest.startswith("/"):
+        dest = None
+if not dest:
+    pk = re.search(r"^package (\w+)", open(f"{src}/{demo}").read(), re.M).group(1).replace("_test", "")
+    pk = {"main": "."}.get(pk, pk)
+    dest = f"{pk}/zz_seed_demo_{prop.lower()}_{n}_test.go"
 pkg = os.path.dirname(dest) if dest else None
 runm = re.search(r"-run\s+'?\"?([\w|^$()\\.]+)", meta.get("demo_cmd", "") + head)
 runpat = runm.group(1) if runm else "."
